@@ -4850,6 +4850,11 @@ def pprint(val,imports=None, prefix="\n    ", settings=[],
     if isinstance(val,type):
         rep = type_script_repr(val,imports,prefix,settings)
 
+    elif script_repr_reg.get(type(val)) is container_script_repr:
+        # the items are printed the way the container's owner is
+        rep = container_script_repr(val,imports,prefix,settings,
+                                    unknown_value=unknown_value,qualify=qualify)
+
     elif type(val) in script_repr_reg:
         rep = script_repr_reg[type(val)](val,imports,prefix,settings)
 
@@ -4871,10 +4876,11 @@ script_repr_reg = {}
 
 
 # currently only handles list and tuple
-def container_script_repr(container,imports,prefix,settings):
+def container_script_repr(container,imports,prefix,settings,unknown_value='<?>',qualify=False):
     result=[]
     for i in container:
-        result.append(pprint(i,imports,prefix,settings))
+        result.append(pprint(i,imports,prefix,settings,
+                             unknown_value=unknown_value,qualify=qualify))
 
     ## (hack to get container brackets)
     if isinstance(container,list):
